@@ -22,13 +22,16 @@ EXTENDS Naturals, Sequences, FiniteSets, TLC
 
 CONSTANTS Families,                \* families of cases explored in this configuration
           DefsOf(_), WalletsOf(_), ShapesOf(_), MutKindsOf(_),
+          EnvKindsOf(_),           \* hostile additions to the presented envelope (twins of a presented credential)
+          TamperMutKinds,          \* mutation kinds applied to submissions over such an envelope
+          TamperShapes,            \* envelope shapes in which hostile envelopes are explored
           PatRes(_, _),            \* regular-expression table: [m |-> "no"|"whole"|"group"|"multi", cap |-> STRING]
           DecoyCred,               \* the credential inside the unrelated presentation of the *-arr2 envelopes
           PickMaxOptional, ArrayNoFallThrough, MapEveryDescriptor, MaxBoundsSelection, ResolveChecksEveryEntry,
           WalletNormalises
 
-VARIABLES phase, fam, def, wallet, out, shape, sub, mut, verdict
-vars == <<phase, fam, def, wallet, out, shape, sub, mut, verdict>>
+VARIABLES phase, fam, def, wallet, out, shape, env, ek, sub, mut, verdict
+vars == <<phase, fam, def, wallet, out, shape, env, ek, sub, mut, verdict>>
 
 Dev == [pmo |-> PickMaxOptional, anf |-> ArrayNoFallThrough, med |-> MapEveryDescriptor,
         mbs |-> MaxBoundsSelection, rce |-> ResolveChecksEveryEntry, norm |-> WalletNormalises]
@@ -258,6 +261,37 @@ BuildSub(df, o, w, sh, dv) ==
           IF IsArray(sh) THEN [id |-> base(k).id, p |-> [k |-> "vp", i |-> RealVP(sh)], fmt |-> "ldpvp", nested |-> <<base(k)>>]
           ELSE base(k)]
 
+\* ----- hostile envelopes: the holder adds to its presentation a TWIN of the first presented credential
+\*   same-id       same credential id, other claims (does not satisfy what the original satisfies)
+\*   same-id-fmt   same credential id, other claims, other proof format
+\*   same-content  same claims, type and format, other credential id
+\* Credentials are identified by `name` in this model (= the exact credential); cid is the id member they carry.
+Twin(c, kind) ==
+    CASE kind = "same-id"      -> [c EXCEPT !.name = c.name \o "~sameid", !.f = [k |-> "s", s |-> "zzz", n |-> 0, a |-> <<>>]]
+      [] kind = "same-id-fmt"  -> [c EXCEPT !.name = c.name \o "~sameidfmt", !.f = [k |-> "s", s |-> "zzz", n |-> 0, a |-> <<>>],
+                                            !.fmt = IF c.fmt = "ldp" THEN "jwt" ELSE "ldp"]
+      [] OTHER                 -> [c EXCEPT !.name = c.name \o "~copy", !.cid = c.cid \o "-copy"]
+Tamper(creds, e) ==
+    IF e = "plain" \/ creds = <<>> THEN creds
+    ELSE CASE e = "same-id-back"       -> creds \o <<Twin(creds[1], "same-id")>>
+           [] e = "same-id-front"      -> <<Twin(creds[1], "same-id")>> \o creds
+           [] e = "same-id-fmt-back"   -> creds \o <<Twin(creds[1], "same-id-fmt")>>
+           [] e = "same-content-back"  -> creds \o <<Twin(creds[1], "same-content")>>
+           [] e = "same-content-front" -> <<Twin(creds[1], "same-content")>> \o creds
+           [] OTHER -> creds
+
+\* the correct submission over a presentation holding `presented` (which may hold credentials matching does not select):
+\* every descriptor matching selects, with the path of the selected credential inside the presentation
+BuildOver(df, presented, sh, dv) ==
+    LET o == MatchModel(df, presented, dv)
+        base(k) == [id |-> df.ds[o.map[k].d].id,
+                    p |-> IF Len(presented) = 1 THEN [k |-> "single", i |-> 0] ELSE [k |-> "idx", i |-> o.vcs[o.map[k].p] - 1],
+                    fmt |-> presented[o.vcs[o.map[k].p]].fmt, nested |-> <<>>]
+    IN IF o.res # "ok" THEN <<>>
+       ELSE [k \in 1..Len(o.map) |->
+          IF IsArray(sh) THEN [id |-> base(k).id, p |-> [k |-> "vp", i |-> RealVP(sh)], fmt |-> "ldpvp", nested |-> <<base(k)>>]
+          ELSE base(k)]
+
 NoCred == [name |-> "-", fmt |-> "-"]
 Node(t, cs, c) == [t |-> t, vcs |-> cs, c |-> c]
 NoneNode == Node("none", <<>>, NoCred)
@@ -349,6 +383,11 @@ MutSet(sb, sh, creds, descs, kinds) ==
         own(e) == IF Leaf(e).p.k = "idx" THEN Leaf(e).p.i ELSE 0
         others(e) == IF nv >= 2 THEN {t \in 0..(nv - 1) : t # own(e)} ELSE {}
         withPath(e, k) == SetLeaf(e, [Leaf(e) EXCEPT !.p = [k |-> k, i |-> 0]])
+        \* pointing an entry at another presented credential: named after what that credential shares with the right one
+        forgeName(e, t) == LET x == creds[own(e) + 1]  y == creds[t + 1] IN
+                           IF x.cid = y.cid THEN "forge-path-same-id"
+                           ELSE IF x.f = y.f /\ x.g = y.g /\ x.typ = y.typ /\ x.fmt = y.fmt THEN "forge-path-same-content"
+                           ELSE "forge-path"
         K(k) == k \in kinds
     IN
     {M("none", sb)}
@@ -359,7 +398,7 @@ MutSet(sb, sh, creds, descs, kinds) ==
                                        ELSE IF k = j THEN SetLeaf(sb[j], [Leaf(sb[i]) EXCEPT !.id = Leaf(sb[j]).id])
                                        ELSE sb[k]]) : <<i, j>> \in {x \in I \X I : x[1] < x[2]}}
           ELSE {})
-    \cup (IF K("forge-path") THEN UNION {{M("forge-path", [sb EXCEPT ![i] = toCred(sb[i], t)]) : t \in others(sb[i])} : i \in I} ELSE {})
+    \cup (IF K("forge-path") THEN UNION {{M(forgeName(sb[i], t), [sb EXCEPT ![i] = toCred(sb[i], t)]) : t \in others(sb[i])} : i \in I} ELSE {})
     \cup (IF K("subject") THEN {M("subject", [sb EXCEPT ![i] = junk(sb[i])]) : i \in I} ELSE {})
     \cup (IF K("bad-path") /\ n >= 1 THEN {M("bad-path-" \o k, [sb EXCEPT ![1] = withPath(sb[1], k)]) : k \in {"oob", "desc", "holder"}} ELSE {})
     \cup (IF K("dup-shadow") THEN
@@ -403,41 +442,47 @@ Dummy == [fmt |-> "none", ds |-> <<>>, reqs |-> <<>>]
 NoOut == Out("-", "", <<>>, <<>>)
 
 Init == /\ phase = "start" /\ fam = "-" /\ def = Dummy /\ wallet = <<>> /\ out = NoOut
-        /\ shape = "-" /\ sub = <<>> /\ mut = "-" /\ verdict = "-"
+        /\ shape = "-" /\ env = <<>> /\ ek = "-" /\ sub = <<>> /\ mut = "-" /\ verdict = "-"
 
 ChooseDef == /\ phase = "start"
              /\ \E f \in Families : \E d \in DefsOf(f) : fam' = f /\ def' = d
              /\ phase' = "def"
-             /\ UNCHANGED <<wallet, out, shape, sub, mut, verdict>>
+             /\ UNCHANGED <<wallet, out, shape, env, ek, sub, mut, verdict>>
 
 ChooseWallet == /\ phase = "def"
                 /\ \E w \in WalletsOf(fam) : wallet' = w
                 /\ phase' = "wallet"
-                /\ UNCHANGED <<fam, def, out, shape, sub, mut, verdict>>
+                /\ UNCHANGED <<fam, def, out, shape, env, ek, sub, mut, verdict>>
 
 WalletMatch == /\ phase = "wallet"
                /\ out' = MatchWallet(def, wallet, Dev)
                /\ phase' = "matched"
-               /\ UNCHANGED <<fam, def, wallet, shape, sub, mut, verdict>>
+               /\ UNCHANGED <<fam, def, wallet, shape, env, ek, sub, mut, verdict>>
 
 PresentedCreds == [k \in 1..Len(out.vcs) |-> wallet[out.vcs[k]]]
 DescIds == {def.ds[i].id : i \in 1..Len(def.ds)}
 
+\* Build: the wallet's own presentation ("plain"), or a hostile holder's presentation that additionally holds a twin
+SubFor(sh, e) == IF e = "plain" THEN BuildSub(def, out, wallet, sh, Dev) ELSE BuildOver(def, Tamper(PresentedCreds, e), sh, Dev)
+EnvOK(sh, e) == e = "plain" \/ (PresentedCreds # <<>> /\ MatchModel(def, Tamper(PresentedCreds, e), Dev).res = "ok")
+MutKindsFor(e) == IF e = "plain" THEN MutKindsOf(fam) ELSE MutKindsOf(fam) \cap TamperMutKinds
 Build == /\ phase = "matched" /\ out.res = "ok"
-         /\ \E sh \in ShapesOf(fam) : shape' = sh /\ sub' = BuildSub(def, out, wallet, sh, Dev)
+         /\ \E sh \in ShapesOf(fam) : \E e \in EnvKindsOf(fam) :
+               /\ EnvOK(sh, e) /\ (e = "plain" \/ sh \in TamperShapes)
+               /\ shape' = sh /\ ek' = e /\ env' = Tamper(PresentedCreds, e) /\ sub' = SubFor(sh, e)
          /\ mut' = "none"
          /\ phase' = "built"
          /\ UNCHANGED <<fam, def, wallet, out, verdict>>
 
 MutateSubmission == /\ phase = "built"
-                    /\ \E m \in MutSet(sub, shape, PresentedCreds, DescIds, MutKindsOf(fam)) : m.mut # "none" /\ mut' = m.mut /\ sub' = m.entries
+                    /\ \E m \in MutSet(sub, shape, env, DescIds, MutKindsFor(ek)) : m.mut # "none" /\ mut' = m.mut /\ sub' = m.entries
                     /\ phase' = "mutated"
-                    /\ UNCHANGED <<fam, def, wallet, out, shape, verdict>>
+                    /\ UNCHANGED <<fam, def, wallet, out, shape, env, ek, verdict>>
 
 VerifierValidate == /\ phase \in {"built", "mutated"}
-                    /\ verdict' = CodeVerdict(def, sub, shape, VPs(shape, PresentedCreds), Dev)
+                    /\ verdict' = CodeVerdict(def, sub, shape, VPs(shape, env), Dev)
                     /\ phase' = "validated"
-                    /\ UNCHANGED <<fam, def, wallet, out, shape, sub, mut>>
+                    /\ UNCHANGED <<fam, def, wallet, out, shape, env, ek, sub, mut>>
 
 Next == ChooseDef \/ ChooseWallet \/ WalletMatch \/ Build \/ MutateSubmission \/ VerifierValidate
 Spec == Init /\ [][Next]_vars
@@ -457,7 +502,7 @@ NoPanic == out.res # "panic" /\ verdict # "panic"
 WalletVerifierAgree == (phase = "validated" /\ mut = "none") => verdict = "accept"
 
 ForgedMappingRejected ==
-    (phase = "validated" /\ ~RefOK(def, sub, shape, VPs(shape, PresentedCreds), Dev)) => verdict = "reject"
+    (phase = "validated" /\ ~RefOK(def, sub, shape, VPs(shape, env), Dev)) => verdict = "reject"
 
 ExtractedValueIsPresentValue ==
     (Matched /\ out.res = "ok") =>
